@@ -59,6 +59,7 @@ type tcase struct {
 var (
 	outF     *os.File
 	deadline = 10 * time.Second
+	settle   bool
 )
 
 // tracer orders the events of one trace.
@@ -481,6 +482,18 @@ func runTrace(c tcase, dir string) {
 			tr.log("stall", "what", "wg")
 		}
 	}
+	if settle {
+		// Attribution only (never a verdict): with one trace at a time, wait until no connection handler of
+		// this stream is left, so that a late panic in one (send on the closed channel) kills the process
+		// while THIS trace is still the unfinished one.
+		buf := make([]byte, 1<<20)
+		for t0 := time.Now(); time.Since(t0) < 2*time.Second; time.Sleep(200 * time.Microsecond) {
+			n := runtime.Stack(buf, true)
+			if !strings.Contains(string(buf[:n]), "logstream.(*socketStream).handleConn") {
+				break
+			}
+		}
+	}
 	tr.log("end")
 }
 
@@ -491,6 +504,7 @@ func main() {
 	flag.Parse()
 	_ = flag.Set("logtostderr", "true") // glog: never leave log files behind
 	deadline = *dl
+	settle = *par == 1
 	if *out == "" {
 		vh.Fatal("-out required")
 	}
